@@ -255,6 +255,48 @@ func byteWrite(t string, buf []byte, v []byte) bool {
 	return true
 }
 
+// streamRead reads one value of type t from er and returns it as raw little-endian wire bytes (strings: the bytes).
+func streamRead(t string, er *iohelp.ErrorReader) []byte {
+	switch t {
+	case "bool":
+		if iohelp.ReadBool(er) {
+			return []byte{1}
+		}
+		return []byte{0}
+	case "byte":
+		return []byte{iohelp.ReadByte(er)}
+	case "uint8":
+		return []byte{iohelp.ReadUint8(er)}
+	case "uint16":
+		return digitsU(uint64(iohelp.ReadUint16(er)), 2)
+	case "int16":
+		return digitsU(uint64(uint16(iohelp.ReadInt16(er))), 2)
+	case "uint32":
+		return digitsU(uint64(iohelp.ReadUint32(er)), 4)
+	case "int32":
+		return digitsU(uint64(uint32(iohelp.ReadInt32(er))), 4)
+	case "uint64":
+		return digitsU(iohelp.ReadUint64(er), 8)
+	case "int64":
+		return digitsU(uint64(iohelp.ReadInt64(er)), 8)
+	case "float32":
+		return digitsU(uint64(math.Float32bits(iohelp.ReadFloat32(er))), 4)
+	case "float64":
+		return digitsU(math.Float64bits(iohelp.ReadFloat64(er)), 8)
+	case "guid":
+		g := iohelp.ReadGUID(er)
+		var w [16]byte
+		iohelp.WriteGUIDBytes(w[:], g)
+		return w[:]
+	case "date":
+		return digitsU(uint64(workerlib.TimeToTicks(iohelp.ReadDate(er))), 8)
+	case "string":
+		s := iohelp.ReadString(er)
+		return append(digitsU(uint64(len(s)), 4), []byte(s)...)
+	}
+	return nil
+}
+
 func safely(f func()) (p string) {
 	defer func() {
 		if r := recover(); r != nil {
@@ -506,6 +548,58 @@ func runC20(c *Ctx) (int, error) {
 			}
 			behind := !bytes.Equal(backing[lim:], before[lim:])
 			put(map[string]interface{}{"ev": "blen", "op": "write", "t": t, "n": n, "w": wd, "returned": pw == "", "val": toInts(backing[:lim]), "want": toInts(val[:lim]), "behind": behind})
+		}
+	}
+	// sequences: several values read from ONE ErrorReader (its scratch buffer and error latch are shared state): every
+	// ordered pair of types, and every triple that starts with a guid, a string or a 64-bit value; each value must come
+	// back and the reader must have consumed exactly the bytes of the values
+	{
+		wire := map[string][]byte{"bool": {1}, "byte": {0x7b}, "uint8": {0xfe}, "uint16": {0x34, 0x12}, "int16": {0xfe, 0xff}, "uint32": {1, 2, 3, 4}, "int32": {0xff, 0xff, 0xff, 0x7f},
+			"uint64": {1, 2, 3, 4, 5, 6, 7, 8}, "int64": {0xf8, 0xff, 0xff, 0xff, 0xff, 0xff, 0xff, 0xff}, "float32": {0, 0, 0xc0, 0x3f}, "float64": {0, 0, 0, 0, 0, 0, 0xf8, 0x3f},
+			"guid": {0, 1, 2, 3, 4, 5, 6, 7, 8, 9, 10, 11, 12, 13, 14, 15}, "date": {0, 0, 0x68, 0x4c, 0xea, 0xd7, 0x38, 0}, "string": {9, 0, 0, 0, 'l', 'o', 'n', 'g', 'e', 'r', ' ', 's', 't'}}
+		types := []string{"bool", "byte", "uint8", "uint16", "int16", "uint32", "int32", "uint64", "int64", "float32", "float64", "guid", "date", "string"}
+		var seqs [][]string
+		for _, a := range types {
+			for _, b := range types {
+				seqs = append(seqs, []string{a, b})
+				if a == "guid" || a == "string" || a == "uint64" || a == "date" {
+					for _, c3 := range []string{"uint64", "int64", "float64", "date", "guid", "string", "bool"} {
+						seqs = append(seqs, []string{a, b, c3})
+					}
+				}
+			}
+		}
+		for _, sq := range seqs {
+			var stream []byte
+			for _, t := range sq {
+				stream = append(stream, wire[t]...)
+			}
+			for _, kind := range []string{"plain", "bytes.Reader"} {
+				pr := &shortReader{data: append(append([]byte{}, stream...), 0xEE, 0xEE, 0xEE, 0xEE, 0xEE, 0xEE, 0xEE, 0xEE, 0xEE, 0xEE, 0xEE, 0xEE, 0xEE, 0xEE, 0xEE, 0xEE)}
+				var under io.Reader = pr
+				var br *bytes.Reader
+				if kind == "bytes.Reader" {
+					br = bytes.NewReader(pr.data)
+					under = br
+				}
+				er := iohelp.NewErrorReader(under)
+				okAll, bad := true, ""
+				pn := safely(func() {
+					for i, t := range sq {
+						if got := streamRead(t, er); !bytes.Equal(got, wire[t]) {
+							okAll = false
+							if bad == "" {
+								bad = fmt.Sprintf("value %d (%s)", i+1, t)
+							}
+						}
+					}
+				})
+				consumed := pr.pos
+				if br != nil {
+					consumed = len(pr.data) - br.Len()
+				}
+				put(map[string]interface{}{"ev": "seq", "types": sq, "reader": kind, "ok": okAll, "bad": bad, "consumed": consumed, "want": len(stream), "err": er.Err != nil, "panic": pn})
+			}
 		}
 	}
 	// stale scratch: every stream reader, every short length j < w, two different previous reads
